@@ -900,6 +900,62 @@ fn check_c11_exhaustive() {
     }
 }
 
+// small groups given by a presentation with a REDUNDANT or non-involutive generator and a faithful permutation model (checked against the
+// relators first): ALL subgroups generated by one word of length <= 5 or by two words of length <= 3 (inverse letters included).  Index from
+// the closure in the model; subgroup generators at row 0; relators at every row.  Stated bound: 7 presentations, about 3200 subgroups each.
+fn check_c11_small_groups() {
+    let w = |v: &[isize]| FreeWord::from(v.to_vec());
+    let cyc = |n: usize, k: usize| -> Vec<usize> { (0..n).map(|x| (x + k) % n).collect() };
+    // (name, relators, model of generator 1, model of generator 2, order)
+    let groups: Vec<(&str, Vec<Vec<isize>>, Vec<usize>, Vec<usize>, usize)> = vec![
+        ("V4 = <a,b | a^2, b^2, (ab)^2>", vec![vec![1, 1], vec![2, 2], vec![1, 2, 1, 2]], vec![1, 0, 3, 2], vec![2, 3, 0, 1], 4),
+        ("Z6 = <a,b | b^6, a b^-3>", vec![vec![2, 2, 2, 2, 2, 2], vec![1, -2, -2, -2]], cyc(6, 3), cyc(6, 1), 6),
+        ("Z6 = <a,b | b^6, a b^-2>", vec![vec![2, 2, 2, 2, 2, 2], vec![1, -2, -2]], cyc(6, 2), cyc(6, 1), 6),
+        ("Z12 = <a,b | b^12, a b^-5>", vec![vec![2; 12], vec![1, -2, -2, -2, -2, -2]], cyc(12, 5), cyc(12, 1), 12),
+        ("Z10 = <a,b | b^10, a b^-4>", vec![vec![2; 10], vec![1, -2, -2, -2, -2]], cyc(10, 4), cyc(10, 1), 10),
+        ("S3 = <a,b | a^2, b^3, (ab)^2>", vec![vec![1, 1], vec![2, 2, 2], vec![1, 2, 1, 2]], vec![1, 0, 2], vec![1, 2, 0], 6),
+        ("D4 = <a,b | a^4, b^2, (ab)^2>", vec![vec![1, 1, 1, 1], vec![2, 2], vec![1, 2, 1, 2]], vec![1, 2, 3, 0], vec![0, 3, 2, 1], 8),
+    ];
+    let words5: Vec<Vec<isize>> = all_words(2, 5).into_iter().filter(|v| !v.is_empty()).collect();
+    let words3: Vec<Vec<isize>> = all_words(2, 3).into_iter().filter(|v| !v.is_empty()).collect();
+    for (name, relv, m1, m2, order) in groups {
+        let n = m1.len();
+        let id: Vec<usize> = (0..n).collect();
+        let inv = |p: &Vec<usize>| -> Vec<usize> { let mut q = vec![0; p.len()]; for (i, &x) in p.iter().enumerate() { q[x] = i; } q };
+        let (i1, i2) = (inv(&m1), inv(&m2));
+        let gp = |g: isize| -> &Vec<usize> { match g { 1 => &m1, -1 => &i1, 2 => &m2, _ => &i2 } };
+        let perm_of = |v: &Vec<isize>| -> Vec<usize> { v.iter().fold(id.clone(), |acc, &g| perm_mul(&acc, gp(g))) };
+        // the model satisfies the relators and has the stated order (so it is the group, given that the presentation has at most that order)
+        if relv.iter().any(|r| perm_of(r) != id) { eprintln!("model of {} violates a relator", name); continue; }
+        let closure = |gens: &Vec<Vec<usize>>| -> usize {
+            let mut elems: BTreeSet<Vec<usize>> = BTreeSet::new(); elems.insert(id.clone());
+            let mut stack = vec![id.clone()];
+            while let Some(x) = stack.pop() { for h in gens { let y = perm_mul(&x, h); if elems.insert(y.clone()) { stack.push(y); } } }
+            elems.len()
+        };
+        if closure(&vec![m1.clone(), m2.clone()]) != order { eprintln!("model of {} has the wrong order", name); continue; }
+        let rels: Vec<FreeWord> = relv.iter().map(|r| w(r)).collect();
+        let check = |subv: Vec<&Vec<isize>>| {
+            let sub: Vec<FreeWord> = subv.iter().map(|v| w(v)).collect();
+            let index = order / closure(&subv.iter().map(|v| perm_of(v)).collect());
+            let txt = format!("{} sub={:?}", name, subv);
+            watch("coset_table", txt.clone());
+            match quiet(|| coset_table(2, &rels, &sub)) {
+                Err(e) => falsified("coset_table", txt, format!("panic {}", e)),
+                Ok(t) => {
+                    if t.len() != index { falsified("coset_table", txt.clone(), format!("{} rows, index is {}", t.len(), index)); return; }
+                    for s in &sub { if trace(&t, s) != Some(0) { falsified("coset_table", txt.clone(), format!("subgroup generator {:?} does not fix row 0", letters(s))); return; } }
+                    for r in 0..t.len() { for rel in rels.iter() { if trace_from(&t, r, &letters(rel)) != Some(r) { falsified("coset_table", txt.clone(), format!("relator {:?} traced from row {} does not return", letters(rel), r)); return; } } }
+                }
+            }
+        };
+        check(vec![]);
+        for a in &words5 { check(vec![a]); }
+        for a in &words3 { for b in &words3 { check(vec![a, b]); } }
+    }
+    unwatch();
+}
+
 // "exactly one entry per conjugacy class of subgroups of index at most k": the classes of index n correspond to the transitive actions of the
 // group on n points up to relabelling; counted here by brute force over all tuples of permutations that satisfy the relators (the presentation
 // is the library's own fundamental_group(); every cover is checked to be a genuine covering separately, in check_c05_covers)
@@ -936,10 +992,22 @@ fn count_transitive_actions(ng: usize, rels: &[Vec<isize>], n: usize) -> usize {
 fn check_c05_count() {
     let mut bases: Vec<PartialDSym> = vec![];
     for s in ["<1.1:1:1,1,1:4,4>", "<1.1:1:1,1,1:3,6>", "<1.1:2:2,1 2,1 2:6,4>", "<1.1:2:2,2,2:4,3>", "<1.1:4:2 4,3 4,4 3:4,4>", "<1.1:2:1 2,1 2,2:3 6,4>",
-              "<1.1:8:2 4 6 8,8 3 5 7,6 5 8 7:4,4>", "<1.1:3:1 2 3,1 3,2 3:6 4,3>", "<1.1:1 3:1,1,1,1:4,3,4>"] {
+              "<1.1:8:2 4 6 8,8 3 5 7,6 5 8 7:4,4>", "<1.1:3:1 2 3,1 3,2 3:6 4,3>", "<1.1:1 3:1,1,1,1:4,3,4>",
+              // eight chambers with many mirrors: 165 classes of coverings with at most 4 sheets (deductions made at the row being scanned matter)
+              "<1.1:8:1 4 3 7 8,2 5 6 8,3 5 7 8:8,4 4>"] {
         if let Ok(ds) = s.parse::<PartialDSym>() { bases.push(ds); }
     }
     for ds in corpus() { if ds.is_complete() && ds.size() <= 6 && ds.dim() == 2 && reach(&ds, &[0, 1, 2], 1).len() == ds.size() { bases.push(ds); } }
+    // every 16th of the 2D symbols with 7 or 8 chambers that the crate's generator produces (the thorough tier sweeps them all)
+    {
+        use rust_dsymbols::generators::dset_generators::DSets;
+        use rust_dsymbols::generators::dsym_generators::{DSyms, Geometries};
+        let mut n = 0usize;
+        for dset in DSets::new(2, 8) { if dset.size() < 7 { continue; } for b in DSyms::new(&dset, Geometries::All) {
+            n += 1;
+            if n % 16 == 0 { if let Ok(ds) = format!("{}", b).parse::<PartialDSym>() { bases.push(ds); } }
+        } }
+    }
     for base in bases {
         let g = match quiet(|| rust_dsymbols::fundamental_group::fundamental_group(&base)) { Ok(g) => g, Err(_) => continue };
         let ng = g.nr_generators();
@@ -1176,7 +1244,7 @@ fn main() {
     start_watchdog();
     match prop.as_str() {
         "C01" => check_c01(), "C02" => { check_c02(); check_c02_graph(); check_c02_graph_partial(); check_c02_plain_r(); }, "C04" => { check_c04(); check_c04_minimal(); }, "C05" => { check_c05(); check_c05_covers(); check_c05_universal(); check_c05_count(); if thorough() { check_c05_sweep(); } },
-        "C10" => check_c10(), "C11" => { check_c11(); check_c11_random(); check_c11_exhaustive(); }, "C18" => { check_c18(); check_c18_exact(); check_c18_modular(); }, "C20" => { check_c20(); check_c20_unions(); }, "C13" => { check_c13(); check_c13_large(); },
+        "C10" => check_c10(), "C11" => { check_c11(); check_c11_random(); check_c11_exhaustive(); check_c11_small_groups(); }, "C18" => { check_c18(); check_c18_exact(); check_c18_modular(); }, "C20" => { check_c20(); check_c20_unions(); }, "C13" => { check_c13(); check_c13_large(); },
         _ => { eprintln!("unknown property"); std::process::exit(2); }
     }
     unsafe { println!("falsifier finished: {} discrepancies", COUNT); }
